@@ -246,7 +246,9 @@ fn satb_program<const V: u32>(d: &mut Driver<V>, p: &Params, pi: u64, nops: u64,
             5 => {
                 // H6: publish an object allocated during marking only through an old object
                 let sz = HDR_BYTES + 8 + 8 * d.rng.below(40) as usize;
-                let big = d.rng.chance(1, 8);
+                // (large objects only once the marker runs: their allocation polls for a GC, and with
+                // the marker held the drained Concurrent bucket would end the cycle at once)
+                let big = i >= nops / 2 && d.rng.chance(1, 8);
                 let n = gen_alloc::<V>(d, s.m, TMP, if big { 2 } else { 0 }, if big { 8192 + sz } else { sz }, 1);
                 if n != 0 {
                     let a = root::<V>(s);
